@@ -95,9 +95,18 @@ def engine_x():
             finally:
                 self.in_first_example = False
 
+        die_at = None        # (j, p): a SIGINT at statement boundary p of iteration j, outside `_do_iteration`
+
+        def deliver(self, p):
+            """called at statement boundary `p`: deliver the real SIGINT when this is the chosen point"""
+            if self.die_at is not None and self.die_at == (self.cur_it, p) and not self.kill_delivered:
+                self.kill_delivered = True
+                os.kill(os.getpid(), signal.SIGINT)      # the engine's handler raises ProcessKilledException right here
+
         def write_to_logs(self):
             if not self.in_first_example:
                 self.events.append([3, int(self.cur_it if self.cur_it is not None else -1)])
+                self.deliver(7)
             return super().write_to_logs()
 
     _ENGINE_X = EngineX
@@ -105,7 +114,7 @@ def engine_x():
 
 
 @contextlib.contextmanager
-def record_saves(events):
+def record_saves(events, eng=None):
     """completed `Checkpointer.save(label)` calls are appended to `events` (outermost wrapper: a save that dies inside is
     not recorded)"""
     import direct.checkpointer as CK
@@ -113,6 +122,8 @@ def record_saves(events):
     inner = CK.Checkpointer.save
 
     def save(self, iteration, **kw):
+        if eng is not None and eng.cur_it == iteration:
+            eng.deliver(6)          # at the entry of the periodic save of this iteration
         r = inner(self, iteration, **kw)
         if self.save_to_disk:
             events.append([2, int(iteration)])
@@ -184,7 +195,9 @@ def run_vprocess(expdir, c, *, stop=(0, 0, 0), resume=True, init_path=None, swv=
                  main_process=True, aux0=None, real_scaler=False):
     """One process of the REAL `Engine.train` with a mode-dependent additional model and (optionally) validation data.
     `stop` = (kind, j, p): 0 finish, 1 vanish after j, 2 SIGINT in j (p: 0 before / 1 after backward), 3 crash at point p of
-    the periodic save of j, 4 RuntimeError inside `_do_iteration` of j."""
+    the periodic save of j, 4 RuntimeError inside `_do_iteration` of j, 5 SIGINT at statement boundary p of iteration j OUTSIDE
+    `_do_iteration`: 2 / 3 before / after the optimiser update (step hooks), 4 / 5 before / after `lr_scheduler.step()`, 6 at
+    the entry of the periodic `checkpointer.save(j)`, 7 inside `write_to_logs`."""
     kind, j, p = stop
     total = c["T"]
     model = toy._ToyModel(c["w0"])
@@ -210,6 +223,10 @@ def run_vprocess(expdir, c, *, stop=(0, 0, 0), resume=True, init_path=None, swv=
     eng.kill_where = "pre" if p == 0 else "post"
     eng.vanish_at = j + 1 if kind == 1 else None
     eng.error_at = j if kind == 4 else None
+    eng.die_at = (j, p) if kind == 5 else None
+    if kind == 5:
+        o.register_step_pre_hook(lambda *a, **k: eng.deliver(2))
+        o.register_step_post_hook(lambda *a, **k: eng.deliver(3))
     if real_scaler:
         # the scaler the engine built itself (mixed precision): a non-default start state with a short growth interval
         if eng._scaler.is_enabled():
@@ -223,8 +240,10 @@ def run_vprocess(expdir, c, *, stop=(0, 0, 0), resume=True, init_path=None, swv=
 
     class Recording(type(s)):
         def step(self, *a, **kw):
+            eng.deliver(4)
             r = super().step(*a, **kw)
             records.append((params(), o.param_groups[0]["lr"], aux.training, model.training))
+            eng.deliver(5)
             return r
 
     s.__class__ = Recording
@@ -235,7 +254,7 @@ def run_vprocess(expdir, c, *, stop=(0, 0, 0), resume=True, init_path=None, swv=
     if not main_process:
         comm.is_main_process = lambda: False
     try:
-        with record_saves(eng.events), cm, cheap_gc():
+        with record_saves(eng.events, eng), cm, cheap_gc():
             eng.train(o, s, [toy._ToyDS(c["X"], c["y"])], pathlib.Path(expdir),
                       validation_datasets=[ValDS(c["X"], c["y"])] if has_val else None,
                       resume=resume, initialization=init_path, start_with_validation=swv, num_workers=0)
@@ -243,8 +262,8 @@ def run_vprocess(expdir, c, *, stop=(0, 0, 0), resume=True, init_path=None, swv=
         code = e.code
     except toy.Vanish:
         code = "vanished"
-    except Exception as e:  # noqa: BLE001
-        if not eng.kill_delivered:
+    except BaseException as e:  # noqa: BLE001 - ProcessKilledException is a BaseException
+        if not eng.kill_delivered or isinstance(e, (KeyboardInterrupt, GeneratorExit)):
             raise
         code = "died:" + err_name(e)
     finally:
@@ -259,6 +278,20 @@ def run_vprocess(expdir, c, *, stop=(0, 0, 0), resume=True, init_path=None, swv=
             "flag": bool(aux.training), "events": eng.events, "opt_lr": o.param_groups[0]["lr"]}
 
 
+def die_point(rng, c, j, val_steps, want=None):
+    """a statement boundary of iteration j that the loop reaches (step hooks only in a stepping iteration, the save entry only
+    when iteration j is checkpointed, write_to_logs only when it is logged)"""
+    T, ck, k = c["T"], c["ck"], c["k"]
+    ok = [4, 5]
+    if (j + 1) % k == 0:
+        ok += [2, 3, 3]
+    if j >= 5 and (j % ck == 0 or j + 1 == T):
+        ok.append(6)
+    if j >= 5 and (j % 20 == 0 or j % val_steps == 0 or j + 1 == T):
+        ok.append(7)
+    return want if want in ok else rng.choice(ok)
+
+
 def gen_vhistory(rng, k=1, restart=None):
     """config, processes [(kind, j, p, resume, init, swv)], (val_steps, has_val), init θ;
     `restart` = 0 / 1: force a process with resume=False (initialization = restart) over a directory holding checkpoints"""
@@ -268,11 +301,13 @@ def gen_vhistory(rng, k=1, restart=None):
     has_val = rng.random() < 0.85
     procs = []
     for _ in range(rng.choice([1, 2, 2, 3])):
-        kind = rng.choice([1, 2, 2, 3, 4])
+        kind = rng.choice([1, 2, 2, 3, 4, 5, 5])
         j = rng.randint(0, c["T"] - 1) if rng.random() < 0.2 else rng.randint(5, c["T"] - 1)
         if k > 1 and kind in (2, 4):       # interruptions at window starts are the aligned ones
             j = max(5, j - j % k + (k if j % k else 0)) if j - j % k + k < c["T"] else j
         p = rng.randint(0, 1) if kind == 2 else rng.randint(0, 5) if kind == 3 else 0
+        if kind == 5:
+            p = die_point(rng, c, j, val_steps)
         procs.append([kind, j, p, 1, int(rng.random() < 0.3), int(rng.random() < 0.35)])
     if rng.random() < 0.3:
         procs[0][3] = 0                     # the first process with resume=False (nothing to resume from anyway)
